@@ -79,7 +79,7 @@ pub fn drive(args: &HashMap<String, String>) {
             let mut pairs = vec![];
             let mut envs = vec![];
             for k in 0..npairs {
-                let mut val: BTreeMap<String, V> = names.iter().map(|nm| (nm.clone(), g.value_for(&Pat::Var(nm.clone())))).collect();
+                let mut val: BTreeMap<String, V> = names.iter().map(|nm| (nm.clone(), if nm == "pprog" { V::int(2) } else { g.value_for(&Pat::Var(nm.clone())) })).collect();
                 let alt = match k % 4 {
                     0 => V::cons(V::int(1), V::int(2)),
                     1 => V::nil(),
